@@ -63,15 +63,17 @@ def matches_known(v: dict, finding: dict, prop: str) -> bool:
 # --------------------------------------------------------------------------- minimisation
 
 
-def _same_violation(verdict: dict, want: dict) -> dict | None:
+def _same_violation(verdict: dict, want: dict, exclude=None) -> dict | None:  # noqa: ANN001
+    """A violation of the same group - and, when `exclude` is given, one that `exclude` does not accept (the minimiser
+    must not slide from an unknown violation into a listed known finding of the same group)."""
     wk = group_key(want)
     for v in verdict.get("violations", []):
-        if group_key(v) == wk:
+        if group_key(v) == wk and not (exclude is not None and exclude(v)):
             return v
     return None
 
 
-def minimise(mod, case: dict, violation: dict, budget: int, parallel: int) -> tuple[dict, dict, int]:  # noqa: ANN001
+def minimise(mod, case: dict, violation: dict, budget: int, parallel: int, exclude=None) -> tuple[dict, dict, int]:  # noqa: ANN001
     """Delta debugging while the same violation class persists.  Returns (case, violation, probes used)."""
     probes = [0]
     best_case, best_v = case, violation
@@ -87,7 +89,7 @@ def minimise(mod, case: dict, violation: dict, budget: int, parallel: int) -> tu
             verdict = mod.run_case(cand, parallel=parallel)
         except Exception:  # noqa: BLE001
             return False
-        v = _same_violation(verdict, violation)
+        v = _same_violation(verdict, violation, exclude)
         if v is not None and not verdict.get("harness_error"):
             best_case, best_v = cand, v
             return True
@@ -162,7 +164,7 @@ def case_from_replay(doc: dict) -> dict:
     }
 
 
-def replay_file(path: str, modules: dict) -> int:
+def replay_file(path: str, modules: dict, exclude=None) -> int:  # noqa: ANN001
     with open(path, encoding="utf-8") as f:
         doc = json.load(f)
     prop = doc["property"]
@@ -174,7 +176,7 @@ def replay_file(path: str, modules: dict) -> int:
         return EXIT_HARNESS
     want = doc["violation_class"]
     for v in verdict.get("violations", []):
-        if v["class"] == want:
+        if v["class"] == want and not (exclude is not None and exclude(v)):
             engine.log(f"reproduced: {v['class']} {json.dumps(fingerprint(v), sort_keys=True)[:400]}")
             engine.log(f"VIOLATION property={prop} replay={path}")
             return EXIT_VIOLATION
@@ -223,10 +225,11 @@ def run_check(mod, tier: str, n_cases: int | None = None, max_reports: int = 4) 
         budget = 10 if tier == "quick" else 30
         if viol["class"] in ("non-termination", "livelock"):
             budget = 2  # every probe of a hanging run costs a full watchdog period
-        mc, mv, used = minimise(mod, c, viol, budget, parallel)
+        is_known = lambda v_: any(matches_known(v_, f, prop) for f in known["findings"])  # noqa: E731
+        mc, mv, used = minimise(mod, c, viol, budget, parallel, exclude=is_known)
         path = engine.write_replay(prop, mc, mv, mc["histories"], minimised=used > 0)
         # a violation is only reported after its replay file reproduced it in fresh processes
-        rc = replay_file(path, {prop: mod}) if getattr(mod, "CONFIRM_BY_REPLAY", True) else EXIT_VIOLATION
+        rc = replay_file(path, {prop: mod}, exclude=is_known) if getattr(mod, "CONFIRM_BY_REPLAY", True) else EXIT_VIOLATION
         if rc == EXIT_VIOLATION:
             reported.append(path)
             engine.log(f"  ({len(unknown)} case(s) in group {gk}; minimised with {used} probe runs)")
